@@ -103,6 +103,10 @@ class Rerun(Unit):
                 seq.append({"id": "w", "route": 0, "ctxs": {"in": [0]}, "prev": {"a__t0": 0}, "next": {},
                             "status": st.FAILED, "term": True})
                 tasks["w__r0"] = len(seq) - 1
+                # what followed the failed with-items execution (its failure handler), finished and terminal
+                seq.append({"id": "h", "route": 0, "ctxs": {"in": [0]}, "prev": {"w__t0": len(seq) - 1}, "next": {},
+                            "status": st.SUCCEEDED, "term": True})
+                tasks["h__r0"] = len(seq) - 1
                 staged.append({"id": "w", "route": 0, "ctxs": {"in": [0]}, "prev": {"a__t0": 0}, "ready": True,
                                "completed": True, "items": [{"status": x} for x in item_sts]})
             errors = [{"type": "error", "message": "m", "task_id": "b"}, {"type": "error", "message": "o", "task_id": "zz9"}]
@@ -182,6 +186,8 @@ class Rerun(Unit):
                 downstream.add(("c", 0))
             if ("b", 1) in cand:
                 downstream.add(("c", 1))
+            if ("w", 0) in cand:
+                downstream.add(("h", 0))
             for i, r0 in enumerate(snap_seq):
                 keep_term = (r0["id"], r0["route"]) not in set(cand) | downstream
                 a = {k: v for k, v in seq[i].items() if k != "term"}
